@@ -52,7 +52,14 @@ type vxV3Client struct {
 	snaps map[string][]SnapshotInfoV3
 	segs  map[string][]WALSegmentInfoV3
 	body  map[[2]int64][]byte // (index, offset) -> uncompressed bytes
+	// mayBreak: one segment download may break off mid-stream
+	mayBreak    bool
+	streamBroke bool
 }
+
+type vxErrReader struct{}
+
+func (vxErrReader) Read([]byte) (int, error) { return 0, errors.New("vx: connection reset") }
 
 func (c *vxV3Client) GenerationsV3(ctx context.Context) ([]string, error) { return c.gens, nil }
 func (c *vxV3Client) SnapshotsV3(ctx context.Context, g string) ([]SnapshotInfoV3, error) {
@@ -68,6 +75,13 @@ func (c *vxV3Client) OpenWALSegmentV3(ctx context.Context, g string, index int, 
 	b, ok := c.body[[2]int64{int64(index), offset}]
 	if !ok {
 		return nil, os.ErrNotExist
+	}
+	// a download that breaks off: some of the segment's bytes, then an error (once
+	// per scenario; opening the segment again serves it whole)
+	if c.mayBreak && !c.streamBroke && vx.Fault("segmentStreamBreaks") {
+		c.streamBroke = true
+		k := vx.Choose("bytesBeforeBreak", 0, len(b)-1)
+		return io.NopCloser(io.MultiReader(bytes.NewReader(b[:k]), vxErrReader{})), nil
 	}
 	return io.NopCloser(bytes.NewReader(b)), nil
 }
@@ -150,7 +164,13 @@ func VxC19Restore() {
 	if preexisting {
 		vx.FSWriteFile(out, []byte{1, 2, 3})
 	}
+	// an earlier attempt on the same output path that failed part-way leaves its
+	// reassembled WAL behind (the clean-up removes <output>.tmp only)
+	if !preexisting && vx.Fault("leftoverWALFromFailedAttempt") {
+		vx.FSWriteFile(out+".tmp-wal", []byte{0x77, 0x77, 0x77, 0x77, 0x77, 0x77, 0x77, 0x77})
+	}
 	vxCkptLog = nil
+	c.mayBreak = vx.Param("BRK", 0) == 1
 	vxCkptMayFlush = vx.Param("DUR", 0) == 1
 	defer func() { vxCkptMayFlush = false }()
 	r := vxV3Replica(c)
@@ -168,6 +188,12 @@ func VxC19Restore() {
 	}
 	ok, wals := vxV3Expect(c, segs, s)
 	vx.Assert("tmp-removed", !vx.FSExists(out+".tmp"))
+	if c.streamBroke && err != nil {
+		// a broken download may fail the restore (or be retried transparently: then the
+		// checks below apply); a failed restore leaves nothing at the output path
+		vx.Assert("no-output-on-error", !vx.FSExists(out))
+		return
+	}
 	if !ok {
 		vx.Assert("gap-or-missing-segment-is-an-error", err != nil)
 		vx.Assert("no-output-on-error", !vx.FSExists(out))
@@ -175,6 +201,11 @@ func VxC19Restore() {
 	}
 	vx.Assert("contiguous-run-restores", err == nil && vx.FSExists(out))
 	vx.Assert("all-wals-applied", len(vxCkptLog) == len(wals))
+	same := len(vxCkptLog) == len(wals)
+	for i := 0; same && i < len(wals); i++ {
+		same = bytes.Equal(vxCkptLog[i], wals[i])
+	}
+	vx.Assert("each-wal-is-exactly-its-segments", same)
 }
 
 // VxC19Generations: the whole RestoreV3 over several generations listed in the
